@@ -7,6 +7,18 @@
 //! suffixed names.  The expression text goes through the real parser; the parsed tree is what both the
 //! real folder and the Lean model get.
 //!
+//! Magnitudes are added systematically (the sweep): scenario n is assigned one operator (+ - * / MOD, a
+//! relational one, AND, OR, unary minus, NOT) and one pair of operand types (all 10 x 16 combinations per
+//! 160 scenarios) and gets five definitions whose operands are literals of exactly those types and whose
+//! RESULT (for MOD / AND / OR / NOT / unary minus / comparisons: whose operand) lies just inside and at or
+//! beyond +-2^15 and +-2^31, and at one of 2^24, 2^53, 2^62, 2^63 or a whole number +- a fraction around
+//! the 1e-4 test of `fit_to_type` (2^-13, 2^-14) / the 1e-5 of the comparisons — the places where
+//! `fit_to_type` re-tags a quotient (INTEGER / LONG / DOUBLE / unchanged) and where the range checks sit;
+//! sometimes the left operand is itself a product (`100000 * 100000.5 / 4`).  The same shapes also appear
+//! at random inside larger expressions.  Comparisons with the model are restricted to its exact float
+//! domain (answers `inexact` and values that cannot be written are counted as not compared); the
+//! CONST-vs-inlined comparison on the implementation has no such restriction.
+//!
 //! (a) model vs implementation: the real folder directly (`ConstEvaluator::eval_const` on a
 //!     `ConstLookup` of the visible constants) against `fold`; every definition through `lint`
 //!     (accepted: the literal a `PRINT c` becomes in the linted tree; rejected: the error kind — global
@@ -17,7 +29,8 @@
 //!     name) against the inlined program (every use of an accepted constant whose stored value is the
 //!     folded one replaced by `(e)`, recursively; a constant with a converting suffix is compared with
 //!     `V<suffix> = (e) : PRINT V<suffix>`): `PRINT u` (value), a battery of type-revealing probes on
-//!     `u` (`u / 3`, `u * 300`, `u + 32767`, `u * u`, stores into variables of all four numeric types,
+//!     `u` (`u / 3`, `u + 1` / `u - 1` — a SINGLE above 2^24 absorbs the 1, a DOUBLE does not —, `u * 1.5`,
+//!     `u * 300`, `u + 32767`, `u * u`, stores into variables of all four numeric types,
 //!     by-value arguments, IF, string operations; errors are caught by ON ERROR and printed), and uses
 //!     inside the SUB.  A definition rejected with Overflow / Division by zero must raise error 6 / 11
 //!     when its expression is evaluated at run time, and an accepted one must not.
@@ -283,6 +296,167 @@ const ARITH: [&str; 5] = ["+", "-", "*", "/", "MOD"];
 const REL: [&str; 6] = ["<", "<=", "=", ">=", ">", "<>"];
 const LOGIC: [&str; 2] = ["AND", "OR"];
 
+// ---- results at the re-tagging thresholds ----------------------------------------------------------
+//
+// `fit_to_type` (behind `/` and `MOD`) re-tags a float result: fractional part above 1e-4 -> stays a float,
+// else whole -> INTEGER up to 2^15, LONG up to 2^31, DOUBLE beyond; the range checks of `+ - *`, of the
+// casts and of `AND` / `OR` sit at the same limits; 2^24 / 2^53 are where SINGLE / DOUBLE stop holding
+// every whole number.  For every operator and every pair of operand types the sweep builds operands
+// (literals of exactly those types) whose RESULT lies just below, at and just above each limit, with
+// both signs, and results a little more / less than 1e-4 away from a whole number.
+
+const NUM_TYS: [TypeQualifier; 4] =
+    [TypeQualifier::PercentInteger, TypeQualifier::AmpersandLong, TypeQualifier::BangSingle, TypeQualifier::HashDouble];
+
+/// operators of the sweep: the 5 arithmetic ones, a relational one, AND, OR, unary minus, NOT
+const SWEEP_OPS: usize = 10;
+const TWO15: f64 = 32768.0;
+const TWO24: f64 = 16777216.0;
+const TWO31: f64 = 2147483648.0;
+const TWO53: f64 = 9007199254740992.0;
+const TWO63: f64 = 9223372036854775808.0;
+
+fn decimal(mag: f64) -> String {
+    let s = format!("{}", mag);
+    if s.contains('.') { s } else { format!("{}.0", s) }
+}
+
+/// A literal of exactly this type with exactly this value (the parser types a whole literal by its
+/// magnitude, `d.d` is a SINGLE, `d.d#` a DOUBLE); a negative one is `(-literal)`.
+fn lit_ge(ty: TypeQualifier, x: f64) -> Option<GE> {
+    if !x.is_finite() {
+        return None;
+    }
+    let mag = x.abs();
+    let text = match ty {
+        TypeQualifier::PercentInteger => {
+            if mag.fract() != 0.0 || mag > 32767.0 {
+                return None;
+            }
+            format!("{}", mag as i64)
+        }
+        TypeQualifier::AmpersandLong => {
+            if mag.fract() != 0.0 || !(32768.0..=2147483647.0).contains(&mag) {
+                return None;
+            }
+            format!("{}", mag as i64)
+        }
+        TypeQualifier::BangSingle => {
+            let f = mag as f32;
+            if !f.is_finite() || (f as f64) != mag {
+                return None;
+            }
+            decimal(mag)
+        }
+        TypeQualifier::HashDouble => format!("{}#", decimal(mag)),
+        TypeQualifier::DollarString => return None,
+    };
+    let lit = GE::Lit(text);
+    Some(if x < 0.0 { GE::Par(Box::new(GE::Neg(Box::new(lit)))) } else { lit })
+}
+
+#[derive(Clone, Copy, Debug, PartialEq, Eq)]
+enum Family {
+    /// result around +-2^15, strictly inside / at or beyond
+    T15(bool),
+    /// result around +-2^31
+    T31(bool),
+    /// result around 2^24, 2^53, 2^63, or a whole number +- a fraction near 1e-4 / 1e-5
+    Other,
+}
+
+fn target(rng: &mut Rng, fam: Family) -> f64 {
+    const D: [f64; 6] = [0.0, 0.5, 1.0, 128.0, 256.0, 65536.0];
+    let r = match fam {
+        Family::T15(beyond) | Family::T31(beyond) => {
+            let t = if matches!(fam, Family::T15(_)) { TWO15 } else { TWO31 };
+            let d = *rng.pick(&D);
+            if beyond { t + d } else { t - if d == 0.0 { 1.0 } else { d } }
+        }
+        Family::Other => match rng.below(6) {
+            0 => TWO24 + *rng.pick(&[-1.0, 0.0, 1.0, 2.0]),
+            1 => TWO53 + *rng.pick(&[-1.0, 0.0, 2.0]),
+            2 => TWO63 + *rng.pick(&[-1.0, -0.5, 0.0, 1.0]) * 1099511627776.0,
+            3 => TWO63 / 2.0 + *rng.pick(&[-1.0, 0.0, 1.0]) * 1099511627776.0,
+            _ => {
+                // whole number + a fraction around the 1e-4 test of fit_to_type / the 1e-5 of the comparisons
+                let k = *rng.pick(&[0.0, 1.0, 3.0, 100.0, 32767.0, 32768.0]);
+                let f = *rng.pick(&[0.0001220703125, 0.00006103515625, 0.0009765625, 0.00000762939453125, 0.5, 0.25]);
+                if rng.chance(1, 2) { k + f } else { k - f }
+            }
+        },
+    };
+    if rng.chance(1, 2) { -r } else { r }
+}
+
+/// `l op r` with operands of exactly the types `tl`, `tr` whose exact result is `r` (for MOD, AND, OR,
+/// the relational operators and the unary ones: whose operand is `r`). `None`: no such literals.
+fn threshold_ge(rng: &mut Rng, op: usize, tl: TypeQualifier, tr: TypeQualifier, r: f64) -> Option<GE> {
+    const ADD_B: [f64; 10] = [1.0, 2.0, 0.5, 100.0, 32767.0, 65536.0, 2147483647.0, 0.25, 16777216.0, 4294967296.0];
+    const MUL_B: [f64; 11] = [2.0, 4.0, 0.5, 256.0, 65536.0, 0.25, 1.0, 32768.0, 1048576.0, 4294967296.0, 0.0001220703125];
+    const DIV_B: [f64; 13] = [
+        2.0, 4.0, 0.5, 0.25, 8.0, 65536.0, 8192.0, 16384.0, 1024.0, 0.0000152587890625, 0.00000762939453125,
+        0.00000095367431640625, 131072.0,
+    ];
+    let bin = |op: &'static str, a: GE, b: GE| GE::Bin(op, Box::new(a), Box::new(b));
+    for _ in 0..40 {
+        let made = match op {
+            0 => {
+                let b = *rng.pick(&ADD_B) * if rng.chance(1, 4) { -1.0 } else { 1.0 };
+                let a = r - b;
+                if a + b != r { None } else { Some(("+", a, b)) }
+            }
+            1 => {
+                let b = *rng.pick(&ADD_B) * if rng.chance(1, 4) { -1.0 } else { 1.0 };
+                let a = r + b;
+                if a - b != r { None } else { Some(("-", a, b)) }
+            }
+            2 => {
+                let b = *rng.pick(&MUL_B);
+                let a = r / b;
+                if a * b != r { None } else { Some(("*", a, b)) }
+            }
+            3 => {
+                let b = *rng.pick(&DIV_B);
+                let a = r * b;
+                if a / b != r { None } else { Some(("/", a, b)) }
+            }
+            4 => {
+                let b = *rng.pick(&[7.0, 2.0, 32768.0, 0.4, 100000.0, 32767.0]);
+                if rng.chance(1, 4) { Some(("MOD", b, r)) } else { Some(("MOD", r, b)) }
+            }
+            5 => {
+                let e = *rng.pick(&[0.0, 1.0, -1.0, 0.00000762939453125, 0.0001220703125, 256.0]);
+                Some((*rng.pick(&REL), r, r + e))
+            }
+            6 | 7 => {
+                let b = *rng.pick(&[1.0, 255.0, 32767.0, -1.0]);
+                let o = if op == 6 { "AND" } else { "OR" };
+                if rng.chance(1, 4) { Some((o, b, r)) } else { Some((o, r, b)) }
+            }
+            _ => {
+                let a = lit_ge(tl, r)?;
+                return Some(if op == 8 { GE::Neg(Box::new(GE::Par(Box::new(a)))) } else { GE::Not(Box::new(a)) });
+            }
+        };
+        let Some((o, a, b)) = made else { continue };
+        let (Some(mut ga), Some(gb)) = (lit_ge(tl, a), lit_ge(tr, b)) else { continue };
+        // sometimes the left operand is itself computed (`100000 * 100000.5 / 4`): a product or a sum
+        if rng.chance(1, 4) {
+            let q = *rng.pick(&[2.0, 4.0, 65536.0, 0.5, 1024.0]);
+            let t1 = *rng.pick(&NUM_TYS);
+            let t2 = *rng.pick(&NUM_TYS);
+            if (a / q) * q == a {
+                if let (Some(p1), Some(p2)) = (lit_ge(t1, a / q), lit_ge(t2, q)) {
+                    ga = GE::Par(Box::new(bin("*", p1, p2)));
+                }
+            }
+        }
+        return Some(bin(o, ga, gb));
+    }
+    None
+}
+
 struct Gen<'a> {
     rng: &'a mut Rng,
     /// ids of the accepted definitions visible here, numeric and string
@@ -333,7 +507,25 @@ impl Gen<'_> {
         if depth == 0 || self.rng.chance(1, 4) {
             return self.num_atom();
         }
-        match self.rng.below(23) {
+        match self.rng.below(27) {
+            // a result at a re-tagging threshold, anywhere inside a larger expression
+            23..=26 => {
+                let op = self.rng.below(SWEEP_OPS as u64) as usize;
+                let tl = *self.rng.pick(&NUM_TYS);
+                let tr = *self.rng.pick(&NUM_TYS);
+                let fam = match self.rng.below(5) {
+                    0 => Family::T15(false),
+                    1 => Family::T15(true),
+                    2 => Family::T31(false),
+                    3 => Family::T31(true),
+                    _ => Family::Other,
+                };
+                let r = target(self.rng, fam);
+                match threshold_ge(self.rng, op, tl, tr, r) {
+                    Some(e) => GE::Par(Box::new(e)),
+                    None => self.num_atom(),
+                }
+            }
             // shapes whose value is small and whole but whose type is not INTEGER: the probes tell the
             // types apart on exactly these
             20 => {
@@ -737,6 +929,10 @@ fn probes(u: &str, is_str: bool, id: usize) -> Vec<String> {
         v.push(format!("PT {}", u));
     } else {
         v.push(format!("PRINT {} / 3", u));
+        // SINGLE absorbs a 1 above 2^24, DOUBLE does not; INTEGER / LONG overflow at their limits
+        v.push(format!("PRINT {} + 1", u));
+        v.push(format!("PRINT {} - 1", u));
+        v.push(format!("PRINT {} * 1.5", u));
         v.push(format!("XL& = {} * 300 : PRINT XL&", u));
         v.push(format!("PRINT {} + 32767", u));
         v.push(format!("PRINT {} * {}", u, u));
@@ -762,7 +958,7 @@ const HELPERS: &str = "SUB PI(x%)\nPRINT \"i\"; x%\nEND SUB\nSUB PD(x#)\nPRINT \
 fn main() {
     let mut rep = Report::new(
         "C14",
-        "one case = one generated CONST definition (expression over literals / earlier constants, name with or without suffix, global or SUB / FUNCTION level) or one use of a constant; distinct by the parsed expression, suffix and visible constants; trivial: none",
+        "one case = one generated CONST definition (expression over literals / earlier constants, name with or without suffix, global or SUB / FUNCTION level; incl. the sweep: per operator and operand-type pair, operands whose result lies just inside / at / beyond 2^15, 2^31, 2^24, 2^53, 2^62, 2^63 and around the 1e-4 fraction test of fit_to_type) or one use of a constant; distinct by the parsed expression, suffix and visible constants; trivial: none",
     );
     let thorough = rep.is_thorough();
     let mut rng = Rng::from_env();
@@ -770,13 +966,41 @@ fn main() {
     let mut asks: Vec<Ask> = vec![];
     let mut inexact_candidates = 0u64;
 
+    let sweep_offset = rng.below((SWEEP_OPS * 16) as u64) as usize;
     for sc_no in 0..scenarios {
         let mut sc = Scenario { decls: vec![], func: sc_no % 3 == 2 };
         let mut names = Names { ix: HashMap::new() };
-        let n_global = 4 + rng.below(5) as usize;
-        let n_sub = 2 + rng.below(4) as usize;
-        for k in 0..(n_global + n_sub) {
-            let scope = if k < n_global { Scope::Global } else { Scope::Sub };
+        // the sweep: scenario number -> (operator, left type, right type); five definitions per scenario
+        // whose result is just inside / beyond 2^15 and 2^31 and at one of the other thresholds
+        let stratum = (sc_no as usize + sweep_offset) % (SWEEP_OPS * 16);
+        let (sw_op, sw_tl, sw_tr) = (stratum / 16, NUM_TYS[(stratum / 4) % 4], NUM_TYS[stratum % 4]);
+        let mut plan: Vec<(Scope, Option<GE>)> = vec![];
+        for _ in 0..(2 + rng.below(4)) {
+            plan.push((Scope::Global, None));
+        }
+        let fams = [Family::T31(true), Family::T15(true), Family::Other, Family::T31(false), Family::T15(false)];
+        for (i, fam) in fams.iter().enumerate() {
+            // several targets of the family: not every result can be had from every pair of types
+            let mut made = None;
+            for _ in 0..10 {
+                let r = target(&mut rng, *fam);
+                made = threshold_ge(&mut rng, sw_op, sw_tl, sw_tr, r);
+                if made.is_some() {
+                    break;
+                }
+            }
+            rep.bump(&format!("sweep.{}.{}", ["plus", "minus", "multiply", "divide", "modulo", "relational", "and", "or", "neg", "not"][sw_op], if made.is_some() { "built" } else { "no-such-operands" }));
+            if let Some(e) = made {
+                let at = rng.below(plan.len() as u64 + 1) as usize;
+                if i < 3 { plan.insert(at, (Scope::Global, Some(e))) } else { plan.push((Scope::Sub, Some(e))) }
+            }
+        }
+        for _ in 0..(1 + rng.below(3)) {
+            let at = plan.iter().position(|(s, _)| *s == Scope::Sub).unwrap_or(plan.len());
+            let at = at + rng.below((plan.len() - at) as u64 + 1) as usize;
+            plan.insert(at, (Scope::Sub, None));
+        }
+        for (k, (scope, planned)) in plan.into_iter().enumerate() {
             // name: fresh, or (inside the SUB) sometimes the name of a global constant, rarely a duplicate
             let fresh = format!("{}{}", if scope == Scope::Global { "K" } else { "L" }, k);
             let name = if scope == Scope::Sub && rng.chance(1, 5) && !sc.accepted(Scope::Global).is_empty() {
@@ -806,17 +1030,20 @@ fn main() {
                     _ => num_refs.push(i),
                 }
             }
-            let want_str = rng.chance(1, 6);
+            let want_str = planned.is_none() && rng.chance(1, 6);
             let mut g = Gen { rng: &mut rng, num_refs, str_refs };
             let depth = 1 + g.rng.below(3) as u32;
-            let expr = if g.rng.chance(1, 25) {
+            let from_sweep = planned.is_some();
+            let expr = if let Some(e) = planned {
+                e
+            } else if g.rng.chance(1, 25) {
                 g.odd()
             } else if want_str {
                 g.str(depth)
             } else {
                 g.num(depth)
             };
-            let suffix = if rng.chance(3, 5) {
+            let suffix = if rng.chance(3, 5) || (from_sweep && rng.chance(3, 4)) {
                 None
             } else if want_str && rng.chance(4, 5) {
                 Some(TypeQualifier::DollarString)
